@@ -9,7 +9,9 @@ Open Scope nat_scope.
 
 (** ** Surface trees of the operator grammar, their minimal-parenthesis token rendering and
     the AST they denote *)
-Inductive slit := LInt (z : Z) | LUint (z : Z) | LBool (b : bool) | LNull.
+Inductive slit := LInt (z : Z) | LUint (z : Z) | LBool (b : bool) | LNull
+| LStr (tok : str) (s : str)          (* a string literal token and the string it denotes *)
+| LBytes (tok : str) (b : list N).    (* a bytes literal token and the bytes it denotes *)
 
 Inductive st :=
 | SId (x : str)
@@ -44,9 +46,14 @@ Definition lit_tk (l : slit) : tk :=
   | LBool true => TTrue
   | LBool false => TFalse
   | LNull => TNull
+  | LStr t _ => TString t
+  | LBytes t _ => TBytes t
   end.
 Definition lit_val (l : slit) : value :=
-  match l with LInt z => VInt z | LUint z => VUInt z | LBool b => VBool b | LNull => VNull end.
+  match l with
+  | LInt z => VInt z | LUint z => VUInt z | LBool b => VBool b | LNull => VNull
+  | LStr _ s => VStr s | LBytes _ b => VBytes b
+  end.
 
 Fixpoint raw (t : st) : list tk :=
   let at_ (l : nat) (u : st) := if l <=? prec u then raw u else TLParen :: raw u ++ [TRParen] in
@@ -117,6 +124,8 @@ Definition wf_lit (l : slit) : bool :=
   match l with
   | LInt z => (0 <=? z)%Z && in_i64 z
   | LUint z => in_u64 z
+  | LStr t s => match decode_string t with Some s' => str_eqb s' s | None => false end
+  | LBytes t b => match decode_bytes t with Some b' => str_eqb b' b | None => false end
   | _ => true
   end.
 Definition no_macro (f : str) (recv : bool) (n : nat) : bool :=
